@@ -41,7 +41,17 @@ def _sf_imp(E, st, args, kw):
     return [('val', st, mk_bool(z3.simplify(z3.Implies(a, b))))]
 
 
-for _nm, _fn in (('conj', _sf_conj), ('disj', _sf_disj), ('imp', _sf_imp)):
+def _sf_counting_prefix(E, st, args, kw):
+    """counting_prefix(b, k): for all 0 <= i < k the i-th octet of b is (i + 1) mod 256 -- the padding rule of the OpenSSH private-key
+    container (PROTOCOL.key: 'padded with the bytes 1, 2, 3, ...').  Quantified; used by openssh.check_padding only."""
+    from vf.pyvc.values import zbytes, zint, INT
+    b, k = args
+    i = E.fresh(INT, 'q')
+    zs = zbytes(b)
+    return [('val', st, mk_bool(z3.ForAll([i], z3.Implies(z3.And(i >= 0, i < zint(k)), z3.BV2Int(zs[i]) == (i + 1) % 256))))]
+
+
+for _nm, _fn in (('conj', _sf_conj), ('disj', _sf_disj), ('imp', _sf_imp), ('counting_prefix', _sf_counting_prefix)):
     _c.SPEC_FORMS.setdefault(_nm, _fn)
     _i.SPEC_BUILTINS.setdefault(_nm, _i.BuiltinV('spec.' + _nm, _fn))
 
